@@ -40,6 +40,7 @@ type LoopContract struct {
 	NoTermination bool // `decreases *`: termination of this loop is not claimed
 	Decreases2 *Clause // second component of a lexicographic measure
 	ExitAsserts []*Clause
+	FreeInvariants []*Clause // assumed at the loop head, NOT checked: reported as assumptions
 	Line       int
 }
 
@@ -102,7 +103,7 @@ type ContractSet struct {
 	Assumes   []string // textual list of assumed contracts (for evidence)
 }
 
-var keywordRe = regexp.MustCompile(`^(package|func|assume|lemma|ghost|pred|spec|requires|ensures|modifies|panics_if|let|loop|invariant|decreases|exit_assert|props|encoder|nopanic|may_panic|return_assert|cover|bounded|assert|opt)\b`)
+var keywordRe = regexp.MustCompile(`^(package|func|assume|lemma|ghost|pred|spec|requires|ensures|modifies|panics_if|let|loop|invariant|free_invariant|decreases|exit_assert|props|encoder|nopanic|may_panic|return_assert|cover|bounded|assert|opt)\b`)
 
 // readContractFile extracts //@ lines and parses them.
 func (cs *ContractSet) readContractFile(path, pkgPath string) error {
@@ -290,6 +291,16 @@ func (cs *ContractSet) readContractFile(path, pkgPath string) error {
 					return err
 				}
 				curLoop.Invariants = append(curLoop.Invariants, splitConj(c)...)
+			case "free_invariant":
+				if curLoop == nil {
+					return fmt.Errorf("%s:%d: free_invariant outside loop", path, l.n)
+				}
+				c, err := mk(rest)
+				if err != nil {
+					return err
+				}
+				c.Free = true
+				curLoop.FreeInvariants = append(curLoop.FreeInvariants, c)
 			case "exit_assert":
 				if curLoop == nil {
 					return fmt.Errorf("%s:%d: exit_assert outside loop", path, l.n)
